@@ -16,8 +16,7 @@ Search: on the implementation alone — Verify(Sign) == OK, signature == the sta
 import os, sys, importlib
 import vcommon
 
-PROPS = [p for p in ["Bee2V/C02/Props.lean", "Bee2V/C02/PropsKeyt.lean", "Bee2V/C02/PropsIbs.lean", "Bee2V/C02/Toy.lean"]
-         if os.path.exists(os.path.join(vcommon.LEAN, p))]
+PROPS = ["Bee2V/C02/Props.lean", "Bee2V/C02/PropsKeyt.lean", "Bee2V/C02/PropsIbs.lean", "Bee2V/C02/Toy.lean"]
 TARGETS = [p[:-5].replace("/", ".") for p in PROPS]
 CORPUS = os.path.join(vcommon.VERIF, "gen", "c02_corpus.txt")
 OK, BAD_INPUT, BAD_OID, BAD_RNG, BAD_PARAMS, BAD_PRIVKEY, BAD_PUBKEY, BAD_SHAREDKEY, BAD_SIG, BAD_KEYTOKEN = \
@@ -784,6 +783,20 @@ def run(ctx):
     o3, m3, c3 = do_stage("stage3", o3, m3)
     o4, m4 = g.stage4(o3, m3, c3)
     o4, m4, c4 = do_stage("stage4", o4, m4)
+    # other build configurations of the library must give the same outputs (32-bit words, FAST editions)
+    if ctx.tier == "thorough":
+        for cfg in ("w32", "fast"):
+            exe2 = ctx.cc("harness/c02.c", cfg)
+            for (ops, _, out), lab in zip(stages, ["corpus", "operable", "stage1", "stage2", "stage3", "stage4"][-len(stages):]):
+                out2, err2, rc2 = ctx.run_lines(exe2, ops)
+                if rc2 != 0 or len(out2) != len(ops):
+                    out2 = out2[:max(0, min(len(out2), len(ops) - 1))] + ["CRASH(rc=%d)" % rc2]
+                for i, (x, y) in enumerate(zip(out, out2)):
+                    if x != y:
+                        all_mism.append((i, ops[i], y, "cfg asan: " + x))
+                        srch.report("cfg-%s:%s" % (cfg, ops[i].split()[0]), ops[i], y, x, "build configuration %s disagrees with the default build" % cfg)
+                        break
+                ctx.cov["ops_" + cfg] = ctx.cov.get("ops_" + cfg, 0) + len(ops)
     # the property on the implementation alone (always evaluated: it is cheap and does not involve the model)
     limit = 10 ** 9 if (ctx.tier == "thorough" or all_mism or not proof_ok) else 400
     for ops, meta, out in stages:
